@@ -110,6 +110,9 @@ var typeTable = map[string]func(cfg *gconfig.Config, op, key string) string{
 	"[]string":       doReq[[]string],
 	"[]any":          doReq[[]any],
 	"map[string]int": doReq[map[string]int],
+	"map[int]int":    doReq[map[int]int],
+	"map[bool]string": doReq[map[bool]string],
+	"map[int]pair":   doReq[map[int]pairT],
 	"map[string]any": doReq[map[string]any],
 	"pair":           doReq[pairT],
 	"*pair":          doReq[*pairT],
@@ -124,6 +127,7 @@ var goTypeName = map[string]string{
 	"float32": "float32", "float64": "float64", "string": "string", "bool": "bool",
 	"*int": "*int", "*string": "*string", "[]int": "[]int", "[]string": "[]string", "[]any": "[]interface {}",
 	"map[string]int": "map[string]int", "map[string]any": "map[string]interface {}",
+	"map[int]int": "map[int]int", "map[bool]string": "map[bool]string", "map[int]pair": "map[int]main.pairT",
 	"pair": "main.pairT", "*pair": "*main.pairT", "duration": "time.Duration", "any": "<nil>",
 	"settingsA": "main.settings", "settingsB": "main.settings",
 }
@@ -168,12 +172,12 @@ var typeNames = func() []string {
 // keys include prefixes/extensions of each other and keys ending in fragments of Go type names
 // (so that `key + "%T"` collides for different (key, type) pairs)
 var c10Docs = []string{
-	`{ a i:5 au i:7 aui i:9 a* i:11 a[] [ i:1 i:2 ] amap[string] { x i:1 } s s:str n n b b:t l [ s:x s:y ] m { x i:1 y i:2 } d s:1m0s f s:1.5 p { a i:3 b s:bb } x { y { z i:42 } y2 n } amain.pairT i:1 atime. s:1s afloat i:3 a[]interface%20 [ i:1 ] }`,
+	`{ a i:5 au i:7 aui i:9 a* i:11 a[] [ i:1 i:2 ] amap[string] { x i:1 } s s:str n n b b:t l [ s:x s:y ] m { x i:1 y i:2 } d s:1m0s f s:1.5 p { a i:3 b s:bb } x { y { z i:42 } y2 n } amain.pairT i:1 atime. s:1s afloat i:3 a[]interface%20 [ i:1 ] mi { #500 i:1 #503 i:2 } mb { #true s:yes #false s:no } mp { #1 { a i:1 b s:x } #2 { a i:2 b s:y } } }`,
 	`{ a s:hello au s:7 aui n a* [ ] a[] { a i:1 } s i:12 n s:null b s:true l { x [ i:1 ] } m [ { x i:1 } ] d i:90 p [ i:1 ] x { y s:deep } ax i:1 a.x i:2 }`,
 	`{ a { x i:1 au i:2 } au { int8 i:3 } s s: n n b b:f l [ ] m { } d s:2h p { a s:notint b i:5 } u i:-1 big i:4000000000 }`,
 }
 
-var c10Keys = []string{"a", "au", "aui", "a*", "a[]", "amap[string]", "s", "n", "b", "l", "m", "d", "f", "p", "x", "x.y", "x.y.z", "x.y2", "a.x", "a.au", "au.int8", "amain.pairT", "a*", "atime.", "u", "big", "zz", "ax", "", "afloat", "a[]interface "}
+var c10Keys = []string{"a", "au", "aui", "a*", "a[]", "amap[string]", "s", "n", "b", "l", "m", "d", "f", "p", "x", "x.y", "x.y.z", "x.y2", "a.x", "a.au", "au.int8", "amain.pairT", "a*", "atime.", "u", "big", "zz", "ax", "", "afloat", "a[]interface ", "mi", "mi.503", "mi.500", "mb", "mb.true", "mp", "mp.1", "mp.1.a", "mp.2.b"}
 
 // wantOf: the result of one request on a FRESH Config built from the document (memoized per
 // (document, op, key, type); every entry is computed on its own new Config).
